@@ -453,6 +453,102 @@ def walk_follows_links(R, ctx):
          "every query follows links" if not nofollow else "%s asks about the link itself with `%s`: what a symbolic link points to is never processed" % (norm_path(nofollow[0][0]["path"]).split("::")[-1], nofollow[0][1].get("fname")))
 
 
+def mirror(R, ctx):
+    """Every file found under the input gets one work item whose output is the mirrored relative path -- however the input is spelled."""
+    import posixpath
+    from .. import peval
+    from ..peval import make, ok, Struct, PyMap, NONE, some, Iter
+    from ..pathmodel import PathV
+    rid = "C11.mirror"
+    lib = ctx.lib
+    R.rule(rid, "WorkerTree::collect_work, evaluated from its typed tree (std::path as in sa/pathmodel.py; the resources answer is_file / "
+                "is_directory / collect_work from the layout the rule enumerates; graph insertions are recorded): for an input directory "
+                "spelled `.`, `./`, `src`, `./src`, `src/`, `a/b`, `../p/src` and an output `out`, `./out`, `../out` or none, the items created "
+                "are exactly one per Lua file found, with the source path of the file and the output at the mirrored relative path (in place "
+                "without an output); for an input file the output is the given file, or the file name inside an existing output directory")
+    WT = "frontend::worker_tree::WorkerTree"
+    cw = lib.fn(WT + "::collect_work")
+    opts = [a for a in lib.adts if a.startswith("frontend::") and a.endswith("::Options")]
+    if not R.require(rid, "anchor:collect_work", cw is not None and len(opts) == 1 and WT in lib.adts, "", "collect_work / Options not found"):
+        return
+    OPT = opts[0]
+    FILES = ["a.lua", "sub/b.lua", "sub/deep/c.luau"]
+
+    def paths_in(v, out):
+        if isinstance(v, str) and isinstance(v, PathV):
+            out.append(posixpath.normpath(str(v)))
+        elif isinstance(v, (peval.Struct, peval.Enum)):
+            for x in v.fields.values():
+                paths_in(x, out)
+        return out
+
+    def run_(inp, out, files, dirs, file_input=False):
+        nodes = []
+        fileset = {posixpath.normpath(posixpath.join(inp, f)) for f in files} if not file_input else {posixpath.normpath(inp)}
+
+        def hook(pe, path, fname, args, node):
+            if "Resources" in path and len(args) >= 2 and isinstance(args[1], str):
+                p_ = posixpath.normpath(str(args[1]))
+                if fname == "is_file":
+                    return ok(p_ in fileset or p_ in files_extra)
+                if fname == "is_directory":
+                    return ok(p_ in dirs)
+                if fname == "exists":
+                    return ok(p_ in dirs or p_ in fileset or p_ in files_extra)
+                if fname == "collect_work":
+                    base = str(args[1])
+                    return Iter([PathV(posixpath.join(base, f)) if base not in ("", ".") or True else PathV(f) for f in files])
+            if fname == "add_node" and "petgraph" in path:
+                nodes.append(args[1])
+                return len(nodes) - 1
+            return NotImplemented
+        files_extra = set()
+        pe = peval.PEval(lib, ctx.an, hook=hook)
+        over = {}
+        for f in lib.adts[WT]["variants"][0]["fields"]:
+            t = f["tys"]
+            if "HashMap<" in t and not t.startswith("core::option::Option<"):
+                over[f["name"]] = PyMap([])
+            elif t.startswith("alloc::vec::Vec<"):
+                over[f["name"]] = []
+            elif t.startswith("core::option::Option<"):
+                over[f["name"]] = NONE
+            elif "raph<" in t:
+                over[f["name"]] = Struct("#Graph", {})
+        wt = make(lib, WT, over)
+        oover = {}
+        for f in lib.adts[OPT]["variants"][0]["fields"]:
+            if f["tys"] == "std::path::PathBuf":
+                oover[f["name"]] = PathV(inp)
+            elif f["tys"] == "core::option::Option<std::path::PathBuf>" and "out" in f["name"]:
+                oover[f["name"]] = some(PathV(out)) if out is not None else NONE
+            elif f["tys"].startswith("core::option::Option<"):
+                oover[f["name"]] = NONE
+            elif f["tys"] == "bool":
+                oover[f["name"]] = False
+        try:
+            r = pe.call_fn(cw, [wt, Struct("#Resources", {}), make(lib, OPT, oover)])
+        except peval.OutOfFuel:
+            return None, ["no termination"]
+        if not (isinstance(r, peval.Enum) and r.variant == "Ok") or any(w.startswith(("branch on unknown", "match on unknown")) for w in pe.unknown_reasons):
+            return None, [repr(r)[:80]] + pe.unknown_reasons[:2]
+        return sorted(tuple(sorted(set(paths_in(n_, [])))) for n_ in nodes), []
+    n = 0
+    for inp in (".", "./", "src", "./src", "src/", "a/b", "../p/src"):
+        for out in ("out", "./out", "../out", None):
+            got, why = run_(inp, out, FILES, {posixpath.normpath(inp)})
+            want = sorted(tuple(sorted({posixpath.normpath(posixpath.join(inp, f))} | ({posixpath.normpath(posixpath.join(out, f))} if out is not None else set()))) for f in FILES)
+            n += 1
+            R.ob(rid, "dir:%s->%s" % (inp, out), got == want, ctx.where(cw),
+                 "%d files mirrored" % len(FILES) if got == want else "items created: %s; expected %s %s" % (got, want, why))
+    for out, dirs, want_out in (("out", {"out"}, "out/a.lua"), ("out/x.lua", set(), "out/x.lua"), ("o.lua", set(), "o.lua")):
+        got, why = run_("src/a.lua", out, [], dirs, file_input=True)
+        want = [tuple(sorted({"src/a.lua", want_out}))]
+        n += 1
+        R.ob(rid, "file:src/a.lua->%s%s" % (out, "(dir)" if dirs else ""), got == want, ctx.where(cw), "output %s" % want_out if got == want else "items created: %s; expected %s %s" % (got, want, why))
+    R.require(rid, "floor:cases", n >= 30, "", "%d input/output spellings evaluated" % n)
+
+
 def run(R, ctx):
     R.explanation = (
         "Who-may-write tables, MIR dominance/must-pass rules on the worker's write/done/flush paths, the error arm of the work loop, "
@@ -470,3 +566,7 @@ def run(R, ctx):
     shared_state(R, ctx)
     order(R, ctx)
     walk_follows_links(R, ctx)
+    mirror(R, ctx)
+    # the one documented way for a readable, parseable file to get no output is the top-level filter: its decision table (shared with C20)
+    from . import c20
+    c20.table(R, ctx, rid="C11.filter")
